@@ -40,7 +40,7 @@ var c12Allowed = map[string]map[string]bool{
 // kinds whose List must be namespace-scoped; value true = also needs an owner label restriction.
 var c12Namespaced = map[string]bool{
 	repoMod + "/api/v1alpha1.ExtendedDaemonSetReplicaSetList": true,
-	pkgCoreV1 + ".PodList": true,
+	pkgCoreV1 + ".PodList":                                 true,
 	repoMod + "/api/v1alpha1.ExtendedDaemonsetSettingList": false,
 	repoMod + "/api/v1alpha1.ExtendedDaemonSetList":        false,
 	pkgCoreV1 + ".PodTemplateList":                         false,
@@ -162,6 +162,12 @@ func runC12(r *Run) {
 	r.Floor("C12.R3", 1)
 	r.Floor("C12.R4", 5)
 	r.Floor("C12.R6", 1)
+	r.RuleDoc("C12.R8", "a created pod carries the parent's namespace, both owner-linking labels and the controller reference on every path of the constructor (last writer at every return)")
+	r.Floor("C12.R8", 4)
+	r.ImportFromIf(runC10, map[string]string{"C10.R1": "C12.R8"}, nil, func(o *Obligation) bool {
+		// the part of the constructor's last-writer table that links the pod to its owner
+		return strings.HasSuffix(o.Key, "|namespace") || strings.Contains(o.Key, "|label ") || strings.HasSuffix(o.Key, "|owner reference")
+	})
 	r.NotCovered("run-time behaviour of populations of objects; provenance of every object handed to Delete/Patch/Update (partly covered by R2: they come from scoped lists); interleavings of reconciles")
 
 	entries := reconcileEntries(r)
